@@ -1501,7 +1501,9 @@ class Builtins:
         I.run.event("extern_call", name="re.split", args=args, kwargs=kwargs, node=node, recv=None,
                     func=(fr.func.qualname if fr and fr.func else ""), module=(fr.module if fr else ""))
         from . import tokrx
-        if isinstance(pat, Str) and pat.is_concrete() and tokrx.is_tok_template(subj) and len(args) + len(kwargs) == 2:
+        extra_vals = list(args[2:]) + [v for k, v in kwargs.items() if k not in ("pattern", "string")]
+        defaults_only = all(isinstance(v, IntV) and v.v == 0 for v in extra_vals)      # maxsplit=0, flags=0: re.split's defaults
+        if isinstance(pat, Str) and pat.is_concrete() and tokrx.is_tok_template(subj) and defaults_only:
             try:
                 return ListV(list(tokrx.split(pat.text(), subj)))     # type: ignore[arg-type]
             except tokrx.Undecided:
